@@ -164,9 +164,9 @@ def cube_ok(cube):
     from catii import ccube
 
     if not (isinstance(cube, ccube) and dims_ok(cube.dims) and isinstance(cube.interacting_shape, tuple)
-            and all(type(e) is int for e in cube.interacting_shape)):
+            and all(isinstance(e, (int, np.integer)) and not isinstance(e, bool) for e in cube.interacting_shape)):
         return False
-    return memo(("admits", ids(cube.dims), cube.interacting_shape),
+    return memo(("admits", ids(cube.dims), tuple(cube.interacting_shape)),
                 lambda: S.shape_admits(views_of(cube.dims), commons_of(cube.dims), cube.interacting_shape))
 
 
